@@ -162,6 +162,7 @@ class Canon:
                 if c and self.inlinable(c) is not None:
                     self.run_fn(self.fns[c], stack + (p,))
             self.drop_debug_asserts(body)
+            self.checked_sub_ok_or(body)
             self.ret_if(body)
             self.guard_else(body)
             self.flag_exits(body)
@@ -1552,6 +1553,39 @@ class Canon:
                 if vv is not None:
                     m[kk] = vv
             self.stats["split_last"] = self.stats.get("split_last", 0) + 1
+
+    def checked_sub_ok_or(self, body):
+        """`X.checked_sub(K).ok_or(E)` (X, K pure usize expressions, E pure)  ->  `if X < K { Err(E) } else { Ok(X - K) }`."""
+        for n in [y for y in _walk(body) if y.get("k") == "MethodCall" and y.get("name") == "ok_or" and len(y.get("args", [])) == 1]:
+            cs = _strip(n["recv"])
+            if not (cs.get("k") == "MethodCall" and cs.get("name") == "checked_sub" and len(cs.get("args", [])) == 1 and str(cs.get("ty", "")).startswith("std::option::Option<usize>")):
+                continue
+            X, K, E = cs["recv"], cs["args"][0], n["args"][0]
+            if not (self._pure(X) and self._pure(K) and self._pure(E)):
+                continue
+            rty = str(n.get("ty"))
+            sp = list(n.get("sp") or [0, 0, 0, 0])
+
+            def ctor(nm, arg):
+                return {"k": "Call", "f": {"k": "Def", "dk": "Ctor(Variant, Fn)", "fn": "std::prelude::v1::%s" % nm, "fn_local": False, "id": self._id(), "ty": "fn", "sp": list(sp)},
+                        "args": [arg], "id": self._id(), "ty": rty, "sp": list(sp)}
+
+            def fresh(e):
+                c = copy.deepcopy(e)
+                c.pop("adj", None)
+                for x in _walk(c):
+                    if "id" in x:
+                        x["id"] = self._id()
+                return c
+            cond = {"k": "Binary", "op": "<", "l": fresh(X), "r": fresh(K), "id": self._id(), "ty": "bool", "sp": list(sp)}
+            diff = {"k": "Binary", "op": "-", "l": fresh(X), "r": fresh(K), "id": self._id(), "ty": "usize", "sp": list(sp)}
+            new = {"k": "If", "cond": cond,
+                   "then": {"k": "Block", "stmts": [], "expr": ctor("Err", E), "id": self._id(), "ty": rty, "sp": list(sp)},
+                   "else": {"k": "Block", "stmts": [], "expr": ctor("Ok", diff), "id": self._id(), "ty": rty, "sp": list(sp)},
+                   "id": self._id(), "ty": rty, "sp": list(sp)}
+            n.clear()
+            n.update(new)
+            self.stats["checked_sub_ok_or"] = self.stats.get("checked_sub_ok_or", 0) + 1
 
     def ret_if(self, body):
         """`return if c { A } else { B };`  ->  `if c { return A; } else { return B; }` (also nested): each arm is an exit of its own."""
